@@ -575,6 +575,8 @@ def run(ctx):
     # tokens as labels, repeats summed) and printer
     from ..core import borrow
     from . import c19
+    from . import c18 as _c18
+    borrow(ctx, "C12", _c18.rule_value_read, py)      # a stored quantity is its printed text: it must read back
     borrow(ctx, "C12", c19.rule_accum, py)
     borrow(ctx, "C12", c19.rule_print, py)
     ctx.analysed["package"] = {"modules": len(py.mods), "functions": py.nfuncs}
